@@ -19,7 +19,7 @@ ASSUMPTIONS = ["CPython ast parser", "asyncio.StreamReader: readexactly/readunti
 def run(chk, program, tier):
     for r, t in (('EOF', 'end of stream becomes an exception'), ('FAULT-PATH', 'fault -> DISCONNECTED -> reconnect task'),
                  ('RETRY', 'retry forever, exponential capped non-zero delay'), ('ONE-RX', 'one receive path at a time'),
-                 ('YIELD', 'no cycle of a background loop can spin without suspending'), ('BUF-RESET', 'a new connection starts with an empty reassembly buffer'), ('BUF-PROGRESS', 'the await-free scan loop consumes a packet per iteration (cannot spin)')):
+                 ('YIELD', 'no cycle of a background loop can spin without suspending'), ('BUF-RESET', 'a new connection starts with an empty reassembly buffer'), ('SCAN-PROGRESS', 'the await-free scan loop removes bytes on every iteration (cannot spin)')):
         chk.rule(r, t)
     K.eof_rule(chk, program)
     K.fault_path(chk, program)
@@ -27,6 +27,6 @@ def run(chk, program, tier):
     K.one_rx(chk, program)
     K.yield_rule(chk, program)
     K.buf_reset(chk, program)
-    # the scan loop inside the buffering _receive_impl contains no await on most paths: it must consume a packet on every iteration (C20 BUF-PROGRESS)
+    # the scan loop inside the buffering _receive_impl contains no await on most paths: it must consume a packet on every iteration (weaker form of C20 BUF-PROGRESS)
     from .c16 import _Sub
-    K.buf_rules(_Sub(chk, {'BUF-PROGRESS'}), program)
+    K.buf_rules(_Sub(chk, {'SCAN-PROGRESS'}), program)
